@@ -234,7 +234,7 @@ CHECKS = {
              "object; what was read can be written again identically.",
         note="Trusted: z3 for the enumeration/exhaustiveness; the payload is concrete, so this check is exhaustive over message "
              "structures within the bounds, not over numeric values. Outside: arbitrary numeric payloads, XSD validity, "
-             "non-Earth centres. Date handling of the writers across scale labels is proved under C04.",
+             "non-Earth centres other than the OPM context on MarsBarycenter (JPL kernels of the test data). Date handling of the writers across scale labels is proved under C04.",
         ref="DESIGN.md section 3 C13", technique="solver-enumerated message structures (symbolic choice vector, z3 feasibility + exhaustiveness query) driving the real dumps/loads on real objects"),
     "C14": dict(
         text="The real Cov.frame setter, Cov.copy and the covariance clause of StateVector.frame's setter run on typed stand-ins: "
